@@ -463,15 +463,17 @@ func TestC17SecretSharing(t *testing.T) {
 			v := new(big.Int).Lsh(big.NewInt(1), 200)
 			v.Add(v, big.NewInt(513))
 			if scalarToBig(gr.g, sc(gr.g, v)).Cmp(v) != 0 {
+				// outside C17 (scalar conversion, C12): the harness reads shares and secrets through this path
 				fmt.Println("SELFTEST-FAIL scalar encoding " + gr.name)
-				t.Fatal("SELFTEST-FAIL scalar encoding")
+				t.Fatalf("SELFTEST-FAIL circl misbehaved outside C17: group %s: Scalar.SetBigInt(2^200+513) followed by MarshalBinary does not give the value back (got %x)", gr.name, scalarToBig(gr.g, sc(gr.g, v)))
 			}
 			// r is the group order: r*G is the identity and (r-1)+1 == 0
 			z := sc(gr.g, new(big.Int).Sub(gr.r, big.NewInt(1)))
 			z.Add(z, sc(gr.g, big.NewInt(1)))
 			if !z.IsZero() {
+				// outside C17 (scalar arithmetic, C12), or the order constant of the harness is wrong
 				fmt.Println("SELFTEST-FAIL group order " + gr.name)
-				t.Fatal("SELFTEST-FAIL group order")
+				t.Fatalf("SELFTEST-FAIL circl misbehaved outside C17 (or the harness's order constant is wrong): group %s: Scalar (r-1) + 1 is not zero (SetBigInt / Add / IsZero)", gr.name)
 			}
 		}
 		vlib.Selftest("c17 reference Lagrange interpolation (hand-computed example) and scalar encodings", "ok")
